@@ -7,7 +7,8 @@ THEOREMS = ["ZwVerif.C01." + t for t in
 # the op_merge / op_tine machine refines the ALT rule (relational model of op.cc's next functions)
 MERGE_THEOREMS = ["ZwVerif.Merge." + t for t in
                   ["merge_refines", "merge_reusable", "merge_only_behaviour", "merge_det", "drain_det", "firstBranch_eq",
-                   "spec_by_index", "spec_single", "table_distinct", "table_surj"]]
+                   "spec_by_index", "spec_single", "table_distinct", "table_surj"]] + \
+    ["ZwVerif.OrOp." + t for t in ["or_refines", "firstResults_is_first_branch", "drain_pend", "drain_miss"]]
 
 CORPUS = [
     "(1, 2) ((3, 4) || 5)", "(1,2) (let A := (3,4); A)", "(1,2) ((3,4) dup, 5)", "[(1,2) (3,4)]",
@@ -45,7 +46,7 @@ def templated(g, rng):
 
 
 def run(ctx):
-    ctx.prove("ZwVerif.Props.C01", THEOREMS + MERGE_THEOREMS, extra_targets=["ZwVerif.Props.C01Merge"])
+    ctx.prove("ZwVerif.Props.C01", THEOREMS + MERGE_THEOREMS, extra_targets=["ZwVerif.Props.C01Merge", "ZwVerif.Props.C01Or"])
     h = zwcorr.Harness(ctx)
     rng = ctx.rng
     n = 1500 if ctx.tier == "quick" else 40000
